@@ -647,7 +647,10 @@ func (r *rwRT) ruleTestMode() {
 		{"/builds/ci.test/bin/cogen", false},
 		{"/home/u/.testbed/cogen", false},
 	} {
-		in := &Interp{W: r.w, MaxDepth: 4, MaxVisits: 4, Inline: func(f *ssa.Function) bool { return false }}
+		// helpers of the package itself are followed (the switch may be computed by a function of the executable's name)
+		in := &Interp{W: r.w, MaxDepth: 8, MaxVisits: 4, Inline: func(f *ssa.Function) bool {
+			return f != nil && f.Pkg != nil && f.Pkg.Pkg.Path() == pathRw && len(f.Blocks) > 0
+		}}
 		in.Fields = map[string]AV{"*global:Args": SliceV{Elems: []AV{mkString(tc.exe)}}}
 		isTestBinary := tc.want
 		in.OnCall = func(cc *CallCtx) []Answer {
